@@ -373,6 +373,18 @@ def check_freshness(ctx):
                 ctx.holds(rule, fi, st, 'a fresh copy per call (%s)' % d, fi.node.lineno)
             else:
                 ctx.violation(rule, fi, st, 'clone returns a %s object (%s): every packet built from the prototype would share it' % (k, d), fi.node.lineno)
+    # the prototype keeps a snapshot taken when the field is declared
+    ini = pr.methods.get('__init__')
+    if ini is not None:
+        pparam = ini.node.args.args[1].arg if len(ini.node.args.args) > 1 else 'pkt'
+        for n_ in ast.walk(ini.node):
+            if isinstance(n_, ast.Assign) and isinstance(n_.targets[0], ast.Attribute) and n_.targets[0].attr == 'template' and canon(n_.targets[0].value) == 'self':
+                v = n_.value
+                st = stmt_text(n_)
+                if call_name(v) in ('pickle.dumps', 'copy.deepcopy', 'deepcopy') and v.args and canon(v.args[0]) == pparam:
+                    ctx.holds(rule, ini, st, 'the prototype is a snapshot (pickle / deep copy) of the packet given at declaration', n_.lineno)
+                else:
+                    ctx.violation(rule, ini, st, 'the prototype keeps the caller\'s live packet: changing or reusing it after the class was declared changes the defaults of every new packet', n_.lineno)
     # Field.init default and Ref default are copied when the field is declared / initialised
     ref = repo.cls('Ref')
     lf = ref.methods.get('_lets_find_a_nice_default')
@@ -495,11 +507,17 @@ def check_pack_purity(ctx):
     auto = repo.cls('Auto')
     sb = auto.methods.get('sync_before_pack')
     if sb is not None:
-        w = repo.walker()
+        w = repo.walker(inline_depth=ctx.depth)
+        seen_sb = set()
         for p in w.paths(sb.node, cls=auto):
             for e in p.setattrs():
+                if e.text() in seen_sb:
+                    continue
+                seen_sb.add(e.text())
                 n += 1
                 ok, why = scratch_name(repo, auto, e.name)
+                if canon(e.name) == 'self.iam_enabled_attr_name':
+                    ok, why = False, 'the descriptor\'s enabled flag (a pack() would switch the computed value off for good)'
                 st = '[Auto] %s' % e.text()
                 if ok:
                     ctx.holds(rule, sb, st, why, e.lineno)
